@@ -191,4 +191,43 @@ def applySwaps {α : Type} : List (Int × Int) → List α → Option (List α)
       | some a' => applySwaps rest a'
     else applySwaps rest a
 
+/-! ## The exported entry points of `xrand`
+
+`Sample`, `SampleSlice`, `SampleIterator`, `SampleStream`, `Shuffle` (what users call: the default
+source) and `RSample*` / `RShuffle` (a caller-supplied `*rand.Rand`) are one-line functions; their
+bodies are regenerated (`Gen.Helpers.pkg*W`, `exp*W`) and applied here to the models of the unexported
+`r*` functions. A random source enters those models only through the decision script / swap list it
+produces, so a source is modelled by that script. -/
+
+/-- `xrand.Sample(n, k)` with the default source producing the decisions `ds` -/
+def pkgSample (n k : Int) (ds : List (Int × Int)) : Option (List Int) :=
+  pkgSampleW (fun (src : List (Int × Int)) n k => rSample n k src) ds n k
+/-- `xrand.SampleSlice(a, k)` on a slice of length `n` -/
+def pkgSampleSlicePos (n k : Int) (ds : List (Int × Int)) : Option (List Int) :=
+  pkgSampleSliceW (fun (src : List (Int × Int)) (a : Int) k => rSampleSlicePos a k src) ds n k
+/-- `xrand.SampleIterator(iter, k)` on an iterator of `n` items -/
+def pkgSampleIterPos (n k : Int) (ds : List (Int × Int)) : Option (List Int) :=
+  pkgSampleIteratorW (fun (src : List (Int × Int)) (it : Int) k => rSampleIterPos false it k src) ds n k
+/-- `xrand.SampleStream(ctx, s, k)` on a stream of `n` items -/
+def pkgSampleStreamPos (n k : Int) (ds : List (Int × Int)) : Option (List Int) :=
+  pkgSampleStreamW (fun (_ : Unit) (src : List (Int × Int)) (st : Int) k => rSampleIterPos true st k src) ds () n k
+/-- `xrand.Shuffle(a)` when the default source asks for the swaps `sw` -/
+def pkgShuffle {α : Type} (sw : List (Int × Int)) (a : List α) : Option (List α) :=
+  pkgShuffleW (fun (src : List (Int × Int)) (a : List α) => applySwaps src a) sw a
+/-- `xrand.RSample(r, n, k)` -/
+def expRSample (n k : Int) (ds : List (Int × Int)) : Option (List Int) :=
+  expRSampleW (fun (src : List (Int × Int)) n k => rSample n k src) ds n k
+/-- `xrand.RSampleSlice(r, a, k)` -/
+def expRSampleSlicePos (n k : Int) (ds : List (Int × Int)) : Option (List Int) :=
+  expRSampleSliceW (fun (src : List (Int × Int)) (a : Int) k => rSampleSlicePos a k src) ds n k
+/-- `xrand.RSampleIterator(r, iter, k)` -/
+def expRSampleIterPos (n k : Int) (ds : List (Int × Int)) : Option (List Int) :=
+  expRSampleIteratorW (fun (src : List (Int × Int)) (it : Int) k => rSampleIterPos false it k src) ds n k
+/-- `xrand.RSampleStream(ctx, r, s, k)` -/
+def expRSampleStreamPos (n k : Int) (ds : List (Int × Int)) : Option (List Int) :=
+  expRSampleStreamW (fun (_ : Unit) (src : List (Int × Int)) (st : Int) k => rSampleIterPos true st k src) ds () n k
+/-- `xrand.RShuffle(r, a)` -/
+def expRShuffle {α : Type} (sw : List (Int × Int)) (a : List α) : Option (List α) :=
+  expRShuffleW (fun (src : List (Int × Int)) (a : List α) => applySwaps src a) sw a
+
 end Juniper.Model.Helpers
